@@ -28,7 +28,8 @@ Definition internal (s : state) (l : label) : bool :=
 
 (* would the range loop of RunOnce signal the downloader for this entry *)
 Definition signals (c : cfg) (s : state) (incl : bool) (e : N * name) : bool :=
-  negb (oname_eqb (Some (snd e)) (s_notif s (fst e))) && negb (negb incl && (fst e =? c_own c)).
+  negb (oname_eqb (Some (snd e)) (s_notif s (fst e)))
+  && negb (negb incl && (fst e =? c_own c) && negb (notif_ignored s (fst e))).
 
 (* "administrative" steps: a poll that finds nothing new to ignore, a loop iteration of RunOnce that
    notifies nobody, a pass through the bottom of syncLoop that neither shrinks the waiting set nor exits.
@@ -388,8 +389,8 @@ Proof.
   rewrite (filter_ext _ _ (H)). reflexivity.
 Qed.
 
-Lemma pw_same c s s' : s_pend s' = s_pend s -> s_notif s' = s_notif s -> pw c s' = pw c s.
-Proof. intros E1 E2. unfold pw, signals. rewrite E1, E2. reflexivity. Qed.
+Lemma pw_same c s s' : s_pend s' = s_pend s -> s_notif s' = s_notif s -> s_ign s' = s_ign s -> pw c s' = pw c s.
+Proof. intros E1 E2 E3. unfold pw, signals, notif_ignored. rewrite E1, E2, E3. reflexivity. Qed.
 
 Lemma pw_of_pend c s incl m :
   s_pend s = pend_of incl m -> pw c s = (50 * length (filter (signals c s incl) m))%nat.
@@ -397,14 +398,14 @@ Proof. intros E. unfold pw. rewrite E. destruct m; reflexivity. Qed.
 
 Lemma pw_notify c s s' b a j n :
   s_pend s = Some (b, a) -> alook a j = Some n -> signals c s b (j, n) = true ->
-  s_pend s' = pend_of b (adel a j) -> s_notif s' = upd (s_notif s) j (Some n) ->
+  s_pend s' = pend_of b (adel a j) -> s_notif s' = upd (s_notif s) j (Some n) -> s_ign s' = s_ign s ->
   (pw c s' + 50 <= pw c s)%nat.
 Proof.
-  intros E1 E2 E3 E4 E5. rewrite (pw_of_pend c s' b (adel a j) E4).
+  intros E1 E2 E3 E4 E5 E6. rewrite (pw_of_pend c s' b (adel a j) E4).
   unfold pw at 1. rewrite E1.
   rewrite (filter_adel_ext (signals c s' b) (signals c s b)).
   - pose proof (filter_adel_lt (signals c s b) a j n E2 E3). lia.
-  - intros k y NE. unfold signals. cbn [fst snd]. rewrite E5, upd_other by exact NE. reflexivity.
+  - intros k y NE. unfold signals, notif_ignored. cbn [fst snd]. rewrite E5, E6, upd_other by exact NE. reflexivity.
 Qed.
 
 Ltac onames :=
@@ -558,18 +559,20 @@ Proof.
     { intros [j x] He. unfold signals. cbn [fst snd negb andb].
       assert (NK : NoDup (map fst (s_seen s))) by (eapply scan_keys; [exact SY | constructor]).
       pose proof (alook_of_in _ _ _ NK He) as AL.
-      destruct (v_n _ _ I3 _ _ AL) as [A|[(i & m & A & _)|[A _]]].
+      destruct (v_n _ _ I3 _ _ AL) as [A|[(i & m & A & _)|(A & _ & C)]].
       - rewrite A. assert (E : oname_eqb (Some x) (Some x) = true) by (apply oname_eqb_eq; reflexivity).
         rewrite E. reflexivity.
       - step_inv0 H; congruence.
-      - subst j. rewrite N.eqb_refl. cbn. apply andb_false_r. }
+      - subst j. rewrite N.eqb_refl, C. cbn. apply andb_false_r. }
     step_inv0 H; inversion SC; subst l a.
     + unfold mu. 
       match goal with |- (pw _ ?s1 + sum (mj ?s1) _ + 2 * n_ready ?s1 + n_merge ?s1 + _ + _ <= _)%nat =>
         assert (EP : pw c s1 = 0%nat);
         [| assert (ES : sum (mj s1) (s_dls s1) = sum (mj s) (s_dls s)) by (apply sum_mj_same; reflexivity);
            assert (ER : n_ready s1 = n_ready s) by (apply n_ready_same; reflexivity) ] end.
-      { erewrite pw_of_pend; [|reflexivity]. unfold signals. scbn. fold (signals c s false).
+      { erewrite pw_of_pend; [|reflexivity]. scbn.
+        match goal with |- context [filter ?f ?l] =>
+          replace (filter f l) with (filter (signals c s false) l) by (apply filter_ext; intros; reflexivity) end.
         rewrite (filter_none _ _ NS). reflexivity. }
       rewrite EP, ES, ER. unfold n_merge. scbn. lia.
     + cbn in Heqb. discriminate.
@@ -582,9 +585,11 @@ Proof.
         assert (EP : (pw c s1 <= pw c s)%nat);
         [| assert (ES : sum (mj s1) (s_dls s1) = sum (mj s) (s_dls s)) by (apply sum_mj_same; reflexivity);
            assert (ER : n_ready s1 = n_ready s) by (apply n_ready_same; reflexivity) ] end.
-    1,3: erewrite pw_of_pend; [|reflexivity]; unfold pw; rewrite Heqo; unfold signals; scbn;
-         pose proof (filter_adel_le (fun e => negb (oname_eqb (Some (snd e)) (s_notif s (fst e))) &&
-                                              negb (negb b && (fst e =? c_own c))) a j); lia.
+    1,3: erewrite pw_of_pend; [|reflexivity]; unfold pw; rewrite Heqo; scbn;
+         match goal with Hp : s_pend ?s0 = Some (?b0, ?a0) |- context [filter ?f (adel ?a0 ?j0)] =>
+           replace (filter f (adel a0 j0)) with (filter (signals c s0 b0) (adel a0 j0))
+             by (apply filter_ext; intros; reflexivity);
+           pose proof (filter_adel_le (signals c s0 b0) a0 j0) end; lia.
     all: rewrite ES, ER; unfold n_merge; scbn; lia.
   - (* a pass through the bottom of syncLoop that changes nothing *)
     apply andb_true_iff in AD. destruct AD as [A1 A2]. apply Nat.eqb_eq in A1. apply negb_true_iff in A2.
@@ -807,7 +812,7 @@ Section Quiescent.
   Proof.
     intros HJ E.
     assert (NT : s_notif s j = Some x).
-    { destruct (v_n _ _ I3 _ _ E) as [A|[(i & m & A & _)|[A B]]]; [exact A| |].
+    { destruct (v_n _ _ I3 _ _ E) as [A|[(i & m & A & _)|(A & B & _)]]; [exact A| |].
       - rewrite (proj1 Q) in A. discriminate.
       - destruct HJ; congruence. }
     destruct (v_k _ _ I3 _ _ HJ E NT) as (d & D & KO).
@@ -836,7 +841,8 @@ Section Quiescent.
   Qed.
 
   (* run-once: a quiescent state with an un-emptied waiting set is impossible *)
-  Theorem quiescent_once : c_once c = true -> s_ownskip s = false -> False.
+  Theorem quiescent_once :
+    c_once c = true -> (memN (c_own c) (s_wait s) = true -> s_ownskip s = false) -> False.
   Proof.
     intros ON OS.
     assert (A : admin c s LBottom = true).
@@ -848,7 +854,9 @@ Section Quiescent.
     assert (HJ : In j (still_seen s (s_wait s))) by (rewrite W; left; reflexivity).
     unfold still_seen in HJ. apply filter_In in HJ. destruct HJ as [H1 H2].
     apply memN_alook in H2. destruct H2 as (x & H2).
-    destruct (q_seen_delivered j x (or_intror OS) H2) as [B _].
+    assert (HO : j <> c_own c \/ s_ownskip s = false).
+    { destruct (N.eq_dec j (c_own c)) as [->|NE]; [right; apply OS; apply memN_In; exact H1 | left; exact NE]. }
+    destruct (q_seen_delivered j x HO H2) as [B _].
     rewrite (o_nodeliv _ _ I4 _ H1) in B. discriminate.
   Qed.
 End Quiescent.
